@@ -23,10 +23,21 @@ class SigchldHelper:
     @contextlib.contextmanager
     def track(self):
         self._read_pipe, self._write_pipe = os.pipe()
+        # The pipe is written to by the interpreter's low-level signal handler
+        # (see `signal.set_wakeup_fd()`), not by our Python-level handler. A
+        # Python-level handler only runs between bytecode instructions, so a
+        # SIGCHLD that arrives right before `wait()` enters `read()` would
+        # otherwise neither interrupt the read nor have written to the pipe,
+        # and `wait()` would block forever.
+        os.set_blocking(self._write_pipe, False)
         existing_handler = signal.signal(signal.SIGCHLD, SigchldHelper._handler)
+        existing_wakeup_fd = signal.set_wakeup_fd(
+            self._write_pipe, warn_on_full_buffer=False
+        )
         try:
             yield
         finally:
+            signal.set_wakeup_fd(existing_wakeup_fd)
             signal.signal(signal.SIGCHLD, existing_handler)
             os.close(self._write_pipe)
             os.close(self._read_pipe)
@@ -35,12 +46,15 @@ class SigchldHelper:
             self._read_pipe = None
 
     def wait(self) -> Tuple[int, int]:
-        _ = os.read(self._read_pipe, 1)
+        # Each signal delivered to this process makes one byte readable. After
+        # `read()` returns, pending Python-level handlers (which fill
+        # `self._returncodes`) run before the loop condition is re-evaluated.
+        while len(self._returncodes) == 0:
+            _ = os.read(self._read_pipe, 1)
         return self._extract_any()
 
     def _add_returncode(self, pid: int, returncode: int) -> None:
         self._returncodes.append((pid, returncode))
-        os.write(self._write_pipe, b"\0")
 
     def _extract_any(self) -> Tuple[int, int]:
         # Precondition: `self._returncodes` must be non-empty.
